@@ -65,9 +65,51 @@ def independently_verifies(blob: bytes, key: str, secret: bytes, digest: str, pa
 def subst_bytes(rng, c: int, thorough: bool):
     if thorough:
         return [b for b in range(256) if b != c]
-    cand = {c ^ 1, c ^ 0x80, 0x5f, 0x3a, 0x30, rng.randrange(256)}
+    # c ^ 0x20: the other case of a letter (a comparison made case-insensitive / through int(sig, 16))
+    cand = {c ^ 1, c ^ 0x80, c ^ 0x20, 0x5f, 0x3a, 0x30, rng.randrange(256)}
     cand.discard(c)
     return sorted(cand)
+
+
+# bytes that lenient parsers let through around a token: "$" matches before a trailing \n, strip() drops blanks,
+# int(x, 16) accepts blanks / "+" / "0x" / leading zeroes, C strings stop at NUL
+WIDE_INSERT = False        # thorough tier: the wider insertion alphabet at every offset of every blob
+INSERT_QUICK = [0x5f, 0x3a, 0x30, 0x61, 0x0a, 0x20]
+INSERT_THOROUGH = INSERT_QUICK + [0x00, 0x80, 0x2e, 0x0d, 0x09, 0x2b]
+PADS = [b"\n", b"\r\n", b" ", b"\t", b"\x00", b"\n\n", b"0x", b"+", b"\x0b", b"\x0c", b"\x1c", b"\x85"]
+
+
+def structural_positions(blob: bytes):
+    """offsets adjacent to the structural separators of `label:sig_payload`: (insertion offsets, substitution offsets)"""
+    n = len(blob)
+    c = blob.find(b":")
+    u = blob.find(b"_")
+    ins = {0, n}
+    sub = {0, n - 1}
+    if 0 <= c < (u if u >= 0 else n):
+        ins |= {c, c + 1, c + 2}                 # before ':', before / after the first signature byte
+        sub |= {c - 1, c, c + 1}                 # last label byte, ':', first signature byte
+    if u >= 0:
+        ins |= {u - 1, u, u + 1, u + 2}          # before / after the last signature byte (= before '_'), before / after the first
+        sub |= {u - 1, u, u + 1}                 # payload byte;  last signature byte, '_', first payload byte
+    return sorted(p for p in ins if 0 <= p <= n), sorted(p for p in sub if 0 <= p < n)
+
+
+def structural_mutations(key: str, blob: bytes, sec: str):
+    """ALL 256 byte values inserted / ALL 255 others substituted at every offset adjacent to a structural separator, and the
+    lenient-parser paddings at the four token boundaries of the header"""
+    ins, sub = structural_positions(blob)
+    for pos in ins:
+        for b in range(256):
+            yield "insert_structural", key, blob[:pos] + bytes([b]) + blob[pos:], sec
+    for pos in sub:
+        for b in range(256):
+            if b != blob[pos]:
+                yield "substitute_structural", key, blob[:pos] + bytes([b]) + blob[pos + 1:], sec
+    c, u = blob.find(b":"), blob.find(b"_")
+    for pos in {0, c + 1, u, len(blob)} if 0 <= c < u else {0, len(blob)}:
+        for pad in PADS:
+            yield "pad", key, blob[:pos] + pad + blob[pos:], sec
 
 
 def mutations(rng, key: str, blob: bytes, legit: dict, conf: S.Conf, thorough: bool, stride: int = 1):
@@ -81,7 +123,7 @@ def mutations(rng, key: str, blob: bytes, legit: dict, conf: S.Conf, thorough: b
     for pos in range(0, n, stride):
         yield "delete", key, blob[:pos] + blob[pos + 1:], sec
     for pos in range(0, n + 1, stride):
-        for b in ([0x5f, 0x3a, 0x30, 0x61] if not thorough else [0x5f, 0x3a, 0x30, 0x61, 0x00, 0x80, 0x2e, 0x0a]):
+        for b in (INSERT_THOROUGH if (thorough or WIDE_INSERT) else INSERT_QUICK):
             yield "insert", key, blob[:pos] + bytes([b]) + blob[pos:], sec
     for pos in range(0, n):
         yield "truncate", key, blob[:pos], sec
@@ -150,7 +192,7 @@ def mutations(rng, key: str, blob: bytes, legit: dict, conf: S.Conf, thorough: b
             yield "label", key, other.encode() + b":" + sig + b"_" + payload, sec    # relabelled, old signature
             good = S.real_mac(other, sec.encode(), key.encode() + payload)
             yield "label", key, other.encode() + b":" + good + b"_" + payload, sec   # relabelled by someone who knows the secret
-    for digits in (b"123", b"0", b"007"):
+    for digits in (b"123", b"0", b"007", b"-5", b"-0", b"-", b"--1", b"-1_2", b"+5", b" 5", b"5\n"):
         yield "digits", key, digits, sec
 
 
@@ -166,7 +208,7 @@ def unsigned_mutations(rng, key: str, blob: bytes, thorough: bool):
     for pos in range(n + 1):
         for b in (0x5f, 0x3a, 0x30, 0x2b):
             yield "unsigned", key, blob[:pos] + bytes([b]) + blob[pos:], None
-    for whole in (b"", b"123", b"007", b"bytes", b"bytes:", b":x", b"nosuchtype:x", b"Item:x", b"Item:+x", b"Item:", b"Item",
+    for whole in (b"", b"123", b"007", b"-12", b"-", b"bytes", b"bytes:", b":x", b"nosuchtype:x", b"Item:x", b"Item:+x", b"Item:", b"Item",
                   b"Item:+", b"int:1", b"md5:abc_x", b"_", b"a_b", "Ωmega:+x".encode(),
                   b"bytes:bytes:x", b"d:+", b"e:-"):
         yield "unsigned", key, whole, None
@@ -175,8 +217,9 @@ def unsigned_mutations(rng, key: str, blob: bytes, thorough: bool):
 # ----------------------------------------------------------------------------------------------------
 # one scenario on the implementation
 # ----------------------------------------------------------------------------------------------------
-def run_scenario(conf: S.Conf, writes, rng, thorough, stride=1, attacks=None):
-    """writes: [(key, value)].  Returns (legit {key: blob}, attack records)."""
+def run_scenario(conf: S.Conf, writes, rng, thorough, stride=1, attacks=None, structural=0):
+    """writes: [(key, value)].  Returns (legit {key: blob}, attack records).  structural = number of blobs of the scenario
+    that additionally get the full-alphabet sweep at the structural positions."""
 
     async def go():
         wcache, _, _ = conf.setup()
@@ -196,6 +239,8 @@ def run_scenario(conf: S.Conf, writes, rng, thorough, stride=1, attacks=None):
             todo = [a for k, b in legit.items() for a in unsigned_mutations(rng, k, b, thorough)]
         else:
             todo = [a for k, b in legit.items() for a in mutations(rng, k, b, legit, conf, thorough, stride)]
+            for k, b in list(legit.items())[:structural]:
+                todo.extend(structural_mutations(k, b, conf.secret))
         for cls, rkey, blob2, rsec in todo:
             if rsec == conf.secret and legit.get(rkey) == blob2:
                 continue  # not an alteration
@@ -262,9 +307,9 @@ def judge(conf: S.Conf, legit: dict, recs, ids: S.Ids, stats: dict, nb_payload: 
         return f"{rconf.fields()} key={r['key'].encode().hex()} w=b:{r['blob'].hex()} same=0"
 
     l1 = ["dec1 " + base(r) for r in recs]
-    a1 = DRIVER.ask(l1)
+    a1 = S.ask_par(DRIVER, l1)
     l2 = ["dec2 " + base(r) + " " + S.mac_field(a, r["secret"]) for r, a in zip(recs, a1)]
-    a2 = DRIVER.ask(l2)
+    a2 = S.ask_par(DRIVER, l2)
 
     def verdict(r):
         if len(r["loads"]) == 1:
@@ -273,7 +318,7 @@ def judge(conf: S.Conf, legit: dict, recs, ids: S.Ids, stats: dict, nb_payload: 
         return "-"
 
     l3 = [l.replace("dec2 ", "dec3 ", 1) + " loads=" + verdict(r) for l, r in zip(l2, recs)]
-    a3 = DRIVER.ask(l3)
+    a3 = S.ask_par(DRIVER, l3)
     out = []
     label = conf.digest.encode() + b":"
     nb_val = ("value", "neighbour")
@@ -455,6 +500,9 @@ def derive_attack(a, legit, conf):
         b2 = blob[:-1] + bytes([blob[-1] ^ 1])
     elif kind == "truncate_before_underscore":
         b2 = hdr
+    elif kind == "pad_signature":                       # extra bytes between the genuine signature and the '_' / after the ':'
+        lab = conf.digest.encode()
+        b2 = lab + b":" + bytes.fromhex(a.get("pre", "")) + hdr[len(lab) + 1:] + bytes.fromhex(a.get("post", "")) + b"_" + payload
     else:
         raise HarnessError(f"unknown corpus derivation {kind}")
     return (a.get("class", kind), a["read_key"], b2, a.get("reader_secret", conf.secret))
@@ -499,6 +547,15 @@ def run(chk: Check) -> int:
         scenarios.append((f"unsigned:{i}", conf, writes, None))
     exhaustive_blobs = 0
     full_blobs = 0
+    # full-alphabet sweep at the structural positions: quick = one blob per keyed digest, each under another pickler (which
+    # digest meets which pickler rotates with the seed); thorough = the first blob of every generated scenario
+    global WIDE_INSERT
+    WIDE_INSERT = chk.thorough
+    if chk.thorough:
+        structural_scenarios = set(range(n))
+    else:
+        structural_scenarios = {3 * b + (b + chk.seed) % 3 for b in range(3)}
+    structural_blobs = []
     for origin, conf, writes, attack in scenarios:
         if attack is not None:
             if isinstance(attack, dict):
@@ -508,10 +565,17 @@ def run(chk: Check) -> int:
             legit, recs, nbp = run_scenario(conf, writes, chk.rng, chk.thorough, attacks=[attack])
         else:
             # quick: every offset of every blob, a handful of substitute bytes; thorough: all 255 substitutes
-            full = origin.startswith("gen:") and int(origin.split(":")[1]) < n_full
-            legit, recs, nbp = run_scenario(conf, writes, chk.rng, full)
+            gi = int(origin.split(":")[1]) if origin.startswith("gen:") else None
+            full = gi is not None and gi < n_full
+            structural = 1 if gi is not None and gi in structural_scenarios and conf.secret else 0
+            legit, recs, nbp = run_scenario(conf, writes, chk.rng, full, structural=structural)
             exhaustive_blobs += len(legit)
             full_blobs += len(legit) if full else 0
+            if structural:
+                k0 = next(iter(legit))
+                structural_blobs.append({"config": conf.name(), "key": k0, "blob_len": len(legit[k0]),
+                                         "insert_offsets": structural_positions(legit[k0])[0],
+                                         "substitute_offsets": structural_positions(legit[k0])[1]})
         items = judge(conf, legit, recs, ids, stats, nbp)
         evaluations += len(recs)
         conf_hist[conf.name()] = conf_hist.get(conf.name(), 0) + len(recs)
@@ -542,7 +606,13 @@ def run(chk: Check) -> int:
         "distinct_nontrivial": len(distinct),
         "rule": "a case = (reader configuration, key read, corrupted blob): for every blob stored by a generated write under "
                 "{default,json,omitted pickler} x {md5,sha1,sha256} (+ one sum configuration, model comparison only): a substitution at EVERY "
-                "offset (quick: 4-6 substitute bytes per offset; thorough: all 255), deletion at every offset, insertion at every offset, "
+                "offset (quick: 5-7 substitute bytes per offset incl. the other case of a letter; thorough: all 255), deletion at every offset, "
+                "insertion at every offset (quick: '_', ':', '0', 'a', newline, blank; thorough: + NUL, 0x80, '.', CR, TAB, '+'), for at least "
+                "one blob per keyed digest (quick: 3 blobs, digest x pickler rotating with the seed; thorough: one blob of every scenario) "
+                "ALL 256 byte values inserted and ALL 255 other values substituted at every offset adjacent to a structural separator "
+                "(blob start/end, around the ':' after the label, first and last signature byte, around the '_' before the payload, first "
+                "payload byte: classes insert_structural / substitute_structural, exhaustive at those offsets) and 12 paddings a lenient "
+                "parser would swallow (newline, CRLF, blank, TAB, NUL, '0x', '+', ...) at the four token boundaries of the header (class pad), "
                 "truncation at every offset, extensions, random multi-byte edits, splices with the other blobs of the scenario, copies under "
                 "the other keys (key groups contain keys that are prefixes of each other, with the D25 rearrangement of the payload), four "
                 "other secrets, relabelling and digit-only blobs (the last two outside the property's quantifier: model comparison and the "
@@ -554,6 +624,8 @@ def run(chk: Check) -> int:
         "scenarios": len(scenarios),
         "blobs_swept_at_every_offset": exhaustive_blobs,
         "blobs_swept_with_all_255_substitutes_at_every_offset": full_blobs,
+        "blobs_swept_with_all_256_bytes_at_structural_positions": structural_blobs,
+        "structural_sweep_exhaustive": True,
         "exhaustive": False,
         "configurations": conf_hist,
         "interesting_states_cases": stats,
